@@ -2,6 +2,8 @@ import Qsx.Model.Wire
 import Qsx.Model.Verdict
 import Qsx.Model.LinAlg
 import Qsx.Model.Xform
+import Qsx.Model.Round
+import Qsx.Model.Multi
 import Qsx.Model.Driver
 import Qsx.Model.Num
 import Qsx.Model.BasisFile
@@ -395,6 +397,14 @@ def answer (cx : Ctx) (toks : List String) : Ctx × List String :=
         L'.cols.foldl (fun (s : String) (c : VCol) => s ++ " " ++ fmtRat cx c.obj ++ " " ++ fmtRat cx c.lo ++ " " ++ fmtRat cx c.up) "" ++
         L'.rows.foldl (fun (s : String) (r : Row) => s ++ " " ++ fmtRow r) ""
       pure [line, s!"map {fmtRat cx a} {fmtRat cx b}"]).run' rest
+    (cx, r.getD ["bad-op"])
+  | "conv" :: rest =>
+    -- C16: conv p n {q d}*n : every converted value within one ulp of a p-bit significand
+    let r : Option (List String) := (do
+      let p ← pNat; let n ← pNat
+      let prs : Array (Rat × Rat) ← pMany n (do let q ← pRat cx; let d ← pRat cx; pure (q, d))
+      let bad := (List.range n).filter fun i => !(Qsx.Round.convOK (prs.getD i (0, 0)).1 (prs.getD i (0, 0)).2 p)
+      pure [s!"conv {n - bad.length} {bad.length}" ++ bad.foldl (fun s i => s ++ " " ++ toString i) ""]).run' rest
     (cx, r.getD ["bad-op"])
   | "tointernal" :: rest =>
     let r : Option (List String) := (do
